@@ -30,6 +30,9 @@ type SpecEnv struct {
 	old  *State
 	// pre is the state at loop entry (for loop invariants), optional
 	pre   *State
+	iter  *State           // state at the head of the current loop iteration (step clauses)
+	rets  map[string][]Val // results of the latest contract call per callee (short name)
+	retNames map[string]map[string]int
 	depth int
 	inAssume bool
 }
@@ -191,6 +194,9 @@ func (e *SpecEnv) eval(x ast.Expr) Val {
 			return Val{isNil: true}
 		}
 		if v, ok := e.vars[n.Name]; ok {
+			if v.isAddr {
+				return Val{t: e.cx.load(e.cur, v.t, v.typ), typ: v.typ, loc: v.t}
+			}
 			return v
 		}
 		if gv := e.cx.eng.ghostVar(n.Name); gv != nil {
@@ -280,7 +286,7 @@ func (e *SpecEnv) eval(x ast.Expr) Val {
 		if v.t.sort != SIface {
 			specFail("type assertion on non-interface %s", exprString(n.X))
 		}
-		return e.cx.unbox(v.t, t)
+		return e.cx.unboxSt(e.cur, v.t, t)
 	case *ast.CallExpr:
 		return e.evalCall(n)
 	case *ast.CompositeLit:
@@ -685,6 +691,38 @@ func (e *SpecEnv) evalCall(n *ast.CallExpr) Val {
 			specFail("old() not available here")
 		}
 		return e.inState(e.old).eval(n.Args[0])
+	case "iter":
+		argn(1)
+		if e.iter == nil {
+			specFail("iter() only in loop step clauses")
+		}
+		return e.inState(e.iter).eval(n.Args[0])
+	case "ret":
+		// ret(callee, result): result of the latest call of callee on this path
+		argn(2)
+		cid, ok1 := n.Args[0].(*ast.Ident)
+		if !ok1 || e.rets == nil {
+			specFail("ret(callee, result) not available here")
+		}
+		rs, ok := e.rets[cid.Name]
+		if !ok {
+			specFail("ret: no call of %s recorded", cid.Name)
+		}
+		idx := -1
+		switch a := n.Args[1].(type) {
+		case *ast.Ident:
+			if m := e.retNames[cid.Name]; m != nil {
+				if k, ok := m[a.Name]; ok {
+					idx = k
+				}
+			}
+		case *ast.BasicLit:
+			fmt.Sscan(a.Value, &idx)
+		}
+		if idx < 0 || idx >= len(rs) {
+			specFail("ret: unknown result of %s", cid.Name)
+		}
+		return rs[idx]
 	case "pre":
 		argn(1)
 		if e.pre == nil {
